@@ -14,7 +14,7 @@ func init() {
 	register("C14",
 		"Structural necessary conditions of C14 decided from /repo's SSA: (families) options are grouped by the variable their pflag.Value writes (directly, through a constructor argument or through a composite-literal field); every read of a sizer.* gitconfig key is control-dependent on !flags.Changed(f) for every option f of the family bound to the variable the read is assigned to; (constants) --verbose sets 0, --no-verbose 1, --critical 30, a false value 1, the default is 1, -v/-j are the short forms, and the gitconfig threshold and names values go through the same parsers as the options; (aliases) --include-regexp R and --include /R/ reach the same regexp filter with the same combiner, and --refgroup G and --include @G both combine a refgroup filter on the looked-up group with Include. Not decided: byte-identical output of paired runs.",
 		[]string{"spf13/pflag: Changed(name) is true iff the option was given; Set is called in command-line order"},
-		ruleC14Families, ruleC14Constants, ruleC14Aliases)
+		ruleC14Families, ruleC14Constants, ruleC14Aliases, ruleC14Flex)
 	register("C19",
 		"Structural necessary conditions of C19 decided from /repo's SSA: (json) every MarshalJSON in the module returns the result of encoding/json (or, for object ids, hex digits between constant quotes) and the bytes written for --json are the unmodified result of json.MarshalIndent; (footnotes) a new footnote's number and its append are in the same unseen-text branch with number = count+1, numbering at print time is by position, empty text yields no citation, citations are created only while emitting a row and reach the row's citation column; (unbounded-lines) no line-oriented stage downstream of a git command whose lines carry names (rev-list --objects paths, for-each-ref refnames) uses a length-capped scanner. Not decided: validity of the emitted JSON and table for concrete byte strings (encoding/json is trusted to escape).",
 		[]string{"encoding/json escapes every string it marshals", "bufio.Scanner fails on tokens longer than its buffer limit (64 KiB by default)"},
@@ -813,3 +813,11 @@ func (c *Ctx) scannerHasLargeBuffer(call *ssa.Call) bool {
 }
 
 var _ = sort.Strings
+
+// ruleC14Flex: `--include @G` builds the same filter as `--refgroup G`
+// (C06.flex, reported under C14's name).
+func ruleC14Flex(c *Ctx) {
+	c.RuleAlias = map[string]string{"C06.flex": "C14.aliases"}
+	defer func() { c.RuleAlias = nil }()
+	ruleC06Flex(c)
+}
